@@ -3,6 +3,8 @@ package checks
 import (
 	"fmt"
 	"go/build/constraint"
+	"go/parser"
+	"go/token"
 	"regexp"
 	"sort"
 	"strings"
@@ -32,6 +34,8 @@ func C17(c *core.Ctx) error {
 		"many lines":           "// Copyright ACME\n// SPDX-License-Identifier: MIT\n//\n// third line\n",
 		"many no newline":      "// Copyright ACME\n// SPDX-License-Identifier: MIT\n// last line without newline",
 		"block comment":        "/*\nCopyright ACME\n  indented line\n*/\n",
+		// a block comment whose lines begin like the clauses of a Go file (text that is looked for line-wise must not be found here)
+		"block comment with lines like clauses": "/*\nCopyright ACME. This\npackage is distributed in the hope that it will be useful, see the\nimport notes. There is no\nfunc main in this file.\n*/\n",
 		"trailing blank line":  "// Copyright ACME\n// second\n\n",
 		"looks like directive": "// Copyright ACME\n// nolint: all\n//lint:file-ignore U1000 generated code\n",
 		// lines that gofmt would re-indent if the header became the package's doc comment
@@ -143,13 +147,7 @@ func C17(c *core.Ctx) error {
 		}
 		// split header / rest at the package clause
 		lines := strings.Split(txt, "\n")
-		pkgLine := -1
-		for li, l := range lines {
-			if strings.HasPrefix(l, "package ") {
-				pkgLine = li
-				break
-			}
-		}
+		pkgLine := c17pkgLine(txt)
 		if pkgLine < 0 {
 			bad("nopackage", "no package clause in the output")
 			return
@@ -495,4 +493,20 @@ func C17(c *core.Ctx) error {
 	c.Ev.Assume("release tags (go1.x) are always true; cgo disabled")
 	c.Ev.Assume("boilerplate-file and mock-build-tags describe the file header, which is rendered from the package's resolved template-data; writing them at interface level is not meaningful and not exercised")
 	return nil
+}
+
+// c17pkgLine returns the 0-based index of the line holding the package clause, as the Go parser sees it (a line of a
+// block comment that begins with the word "package" is not the clause); -1 if there is none. Falls back to a line scan
+// when the text does not parse.
+func c17pkgLine(txt string) int {
+	fset := token.NewFileSet()
+	if f, err := parser.ParseFile(fset, "out.go", txt, parser.PackageClauseOnly|parser.ParseComments); err == nil && f.Package.IsValid() {
+		return fset.Position(f.Package).Line - 1
+	}
+	for li, l := range strings.Split(txt, "\n") {
+		if strings.HasPrefix(l, "package ") {
+			return li
+		}
+	}
+	return -1
 }
